@@ -745,6 +745,27 @@ static void opEnv(const HxLine& l)
   hxEndLine();
 }
 
+// ---- descriptor leaks --------------------------------------------------------------------------------
+static int countFds()
+{
+  DIR* d = opendir("/proc/self/fd");
+  if(!d)
+    return -1;
+  int n = 0;
+  while(readdir(d))
+    ++n;
+  closedir(d);
+  return n;
+}
+static int fdBaseline = 0;
+
+// fds: number of descriptors open beyond those at start-up (the Process object must be idle)
+static void opFds()
+{
+  printf("fds | open=%d", countFds() - fdBaseline);
+  hxEndLine();
+}
+
 // killtest <mask>: a child that blocks reading its redirected stdin is killed
 static void opKillTest(const HxLine& l)
 {
@@ -778,6 +799,7 @@ int main(int argc, char** argv)
     childPathLen = strlen(childPath);
   }
   crcInit();
+  fdBaseline = countFds();
   signal(SIGALRM, onAlarm);
   signal(SIGPIPE, SIG_IGN);
   static HxLine l;
@@ -805,6 +827,8 @@ int main(int argc, char** argv)
       opProc(l);
     else if(hxIs(l, "killtest", 1))
       opKillTest(l);
+    else if(hxIs(l, "fds", 0))
+      opFds();
     else if(l.ntok >= 2 && strcmp(l.tok[0], "env") == 0)
       opEnv(l);
     else
